@@ -208,6 +208,7 @@ def run(ctx, R):
     terminal(cur, "current_prolog_flag")
     terminal(setc, "set_prolog_flag")
     unknown_flag_takes_effect(F, R)
+    lookup_or_default_reads_into_a_fresh_variable(R, text, cur)
 
 
 # who may raise existence_error(procedure, ..) without asking the `unknown` flag
@@ -251,3 +252,47 @@ def unknown_flag_takes_effect(F, R):
     R.ob("C44:unknown:every-lookup-miss-ends-in-undefined_procedure", n >= 5,
          "try_call, try_execute, call_clause and execute_clause reach undefined_procedure from %d places; five are known (an Undefined index in both try_*, a key missing from a "
          "module's code_dir in both *_clause, and from user's in execute_clause)" % n, F.where(up[0]))
+
+
+def lookup_or_default_reads_into_a_fresh_variable(R, text, cur):
+    """A flag whose value lives in the blackboard is read by a helper `( lookup(Key, V) -> ... ; Value = Default )`. When the
+    lookup is made with the caller's Value itself, a stored value that does not unify with a bound Value looks like an
+    absent one, and the default is answered: after set_prolog_flag(answer_write_options, [max_depth(3)]) the goal
+    current_prolog_flag(answer_write_options, []) succeeded. In every helper a current_prolog_flag/2 clause calls with the
+    flag value, a condition whose else-branch unifies the value with a constant does not mention the value."""
+    helpers = set()
+    for h, b, line in cur:
+        val = h[2][1]
+        if val[0] != "var":
+            continue
+        for g in P.conj(b):
+            f = P.functor(g)
+            if f and f[1] == 1 and g[2][0] == val and f[0] not in ("$is_sto_enabled",) and not f[0].startswith("$"):
+                helpers.add(f)
+    n = 0
+    for t, line in P.read_clauses(text):
+        if t[0] == "error":
+            continue
+        h, b = P.head_body(t)
+        if P.functor(h) not in helpers:
+            continue
+        hv = h[2][0]
+        stack = [b]
+        while stack:
+            x = stack.pop()
+            if x[0] != "cmp":
+                continue
+            if x[1] == ";" and len(x[2]) == 2 and x[2][0][0] == "cmp" and x[2][0][1] == "->":
+                cond, els = x[2][0][2][0], x[2][1]
+                defaults = [g for g in P.conj(els) if g[0] == "cmp" and g[1] == "=" and hv in g[2] and any(a[0] != "var" for a in g[2])]
+                if defaults and hv[0] == "var":
+                    n += 1
+
+                    def mentions(tm):
+                        return tm == hv or (tm[0] == "cmp" and any(mentions(a) for a in tm[2]))
+                    R.ob("C44:lookup-or-default:%s/1:condition-does-not-test-the-callers-value" % P.functor(h)[0], not mentions(cond),
+                         "%s/1 answers the default (%s) whenever %s fails, and that lookup is made with the caller's value: a stored value that differs from a bound value is "
+                         "taken for an absent one" % (P.functor(h)[0], P.show(defaults[0]), P.show(cond)), "src/lib/builtins.pl:%d %s/1" % (line, P.functor(h)[0]))
+            stack.extend(x[2])
+    R.floor("lookup-or-default helpers of current_prolog_flag/2", n, 1)
+
